@@ -13,6 +13,7 @@ mod matrix;
 mod mon_c01;
 mod mon_c02;
 mod mon_c03;
+mod mon_c16;
 mod mon_struct;
 mod pins;
 mod reduce;
@@ -29,6 +30,7 @@ fn monitor(id: &str) -> Option<Box<dyn Monitor>> {
         "C03" => Some(Box::new(mon_c03::C03)),
         "C04" => Some(Box::new(mon_struct::C04)),
         "C13" => Some(Box::new(mon_struct::C13)),
+        "C16" => Some(Box::new(mon_c16::C16)),
         _ => None,
     }
 }
@@ -128,6 +130,11 @@ fn main() {
         "gen" => {
             // vmon gen <tag> <idx> : print a generated program
             let idx: u64 = args[3].parse().unwrap();
+            if corpus::KINDS.contains(&args[2].as_str()) {
+                let (p, _) = corpus::corpus_program(&args[2], idx);
+                print!("{}", cmodel::print_program(&p));
+                return;
+            }
             let p = cgen::gen_program(&args[2], idx, &mon_c01::cfg_c01());
             print!("{}", cmodel::print_program(&p));
         }
